@@ -230,7 +230,7 @@ func TestC06(t *testing.T) {
 	hx.Check[c06Case]{
 		Property: "C06", Part: "expiry",
 		Rule:  "otherwise-accepting generated worlds (both wrappers, both entry points, 0-2 logging inspections) x expiry: random well-formed timestamps year 1..9999, now +-{1s..10y}, calendar edge cases, other date layouts / time-zone suffixes / lower case / near-miss single-character edits / empty / arbitrary text; non-trivial = well-formed expiry within +-1h of now or a malformed string; distinct by (wrapper, entry, expiry spec, shape)",
-		Cases: hx.Pick(1200, 20000),
+		Cases: hx.Pick(1200, 100000),
 		Gen:   c06Gen, Run: c06Run,
 	}.Execute(t)
 }
